@@ -539,6 +539,87 @@ func c18HttpScenario(r *Rng, callers int, limit int, procs int) map[string]any {
 	return map[string]any{"op": "rpchttp.run", "limit": limit, "ops": events, "implMaxInflight": maxInflight, "implIssued": len(seenIDs), "callers": callers, "problems": problems}
 }
 
+// UnsubscribeAll while one subscription is active and another is still awaiting its confirmation: afterwards nothing
+// is configured, a late confirmation activates nothing, and no notification reaches any of them
+func c18UnsubscribeAllProbe(r *Rng, iters int) map[string]any {
+	var problems []string
+	for it := 0; it < iters && len(problems) == 0; it++ {
+		ctx, cancel := context.WithCancel(context.Background())
+		ft := newFakeWS()
+		rc, reconnect := rpcbackend.VerifNewWS(ctx, ft, it%2 == 0)
+		go func() { _, _ = rc.Subscribe(ctx, "topic", 1) }()
+		ft.waitSent(1, time.Second)
+		idA, _ := ft.frame(0)["id"].(string)
+		ft.push(fmt.Sprintf(`{"jsonrpc":"2.0","id":"%s","result":"400"}`, idA))
+		time.Sleep(2 * time.Millisecond)
+		if it%4 >= 2 && it%2 == 1 {
+			// the active one is back to unconfirmed after a reconnect
+			_ = reconnect(ctx)
+		}
+		go func() { _, _ = rc.Subscribe(ctx, "topic", 2) }() // never confirmed before UnsubscribeAll
+		ft.waitSent(ft.nSent()+1, time.Second)
+		time.Sleep(2 * time.Millisecond)
+		var got int64
+		for _, sub := range rc.Subscriptions() {
+			go func(sub rpcbackend.Subscription) {
+				for range sub.Notifications() {
+					atomic.AddInt64(&got, 1)
+				}
+			}(sub)
+		}
+		nBefore := len(rc.Subscriptions())
+		done := make(chan struct{})
+		answered := ft.nSent()
+		go func() { _ = rc.UnsubscribeAll(ctx); close(done) }()
+		deadline := time.Now().Add(3 * time.Second)
+	loop:
+		for {
+			for k := answered; k < ft.nSent(); k++ {
+				fr := ft.frame(k)
+				id, _ := fr["id"].(string)
+				if fr["method"] == "eth_unsubscribe" {
+					ft.push(fmt.Sprintf(`{"jsonrpc":"2.0","id":"%s","result":true}`, id))
+				}
+				answered = k + 1
+			}
+			select {
+			case <-done:
+				break loop
+			default:
+			}
+			if time.Now().After(deadline) {
+				problems = append(problems, "hang: UnsubscribeAll did not return within 3s")
+				break
+			}
+			time.Sleep(50 * time.Microsecond)
+		}
+		if n := len(rc.Subscriptions()); n != 0 {
+			problems = append(problems, fmt.Sprintf("after UnsubscribeAll %d of %d subscriptions are still configured (one of them was awaiting its confirmation)", n, nBefore))
+		}
+		atomic.StoreInt64(&got, 0)
+		// late confirmations for every eth_subscribe that was never answered, then notifications for those ids
+		for k := 0; k < ft.nSent(); k++ {
+			fr := ft.frame(k)
+			id, _ := fr["id"].(string)
+			if fr["method"] == "eth_subscribe" && id != idA {
+				ft.push(fmt.Sprintf(`{"jsonrpc":"2.0","id":"%s","result":"%d"}`, id, 700+k))
+			}
+		}
+		time.Sleep(2 * time.Millisecond)
+		for k := 0; k < ft.nSent(); k++ {
+			ft.push(fmt.Sprintf(`{"jsonrpc":"2.0","method":"eth_subscription","params":{"subscription":"%d","result":{"n":1}}}`, 700+k))
+		}
+		ft.push(`{"jsonrpc":"2.0","method":"eth_subscription","params":{"subscription":"400","result":{"n":2}}}`)
+		time.Sleep(20 * time.Millisecond)
+		if n := atomic.LoadInt64(&got); n != 0 {
+			problems = append(problems, fmt.Sprintf("%d notifications were delivered to subscriptions after UnsubscribeAll: a subscription unsubscribed while awaiting confirmation still owns a server id", n))
+		}
+		cancel()
+	}
+	return map[string]any{"op": "rpcws.run", "reconnectEnabled": true, "ops": []any{}, "probe": "unsubscribe-all", "iterations": iters, "problems": problems,
+		"implCalls": map[string]any{}, "implSubs": map[string]any{}, "implFrames": []any{}, "implTables": map[string]any{"calls": 0, "pending": 0, "active": 0, "configured": 0}}
+}
+
 // many callers issuing requests back to back against a backend that answers at once: every backend request must
 // carry an id of its own and every caller must get its own result (id allocation is where a lost atomicity shows)
 func c18HttpIdStress(workers, perWorker, limit int) map[string]any {
@@ -614,6 +695,7 @@ func init() {
 			}
 			c.Add(c18SubscribeReconnectRace(c.R, raceIters), "ws.subscribe-reconnect-race")
 			c.Add(c18UnsubscribeReconnectRace(c.R, raceIters), "ws.unsubscribe-reconnect-race")
+			c.Add(c18UnsubscribeAllProbe(c.R, 40), "ws.unsubscribe-all")
 			for i := 0; i < nHTTP; i++ {
 				c.Add(c18HttpCancelScenario(c.R, 1+c.R.Intn(8), 1+c.R.Intn(6)), "http.cancel")
 			}
